@@ -3,7 +3,16 @@
 import json, os, sys
 HERE = os.path.dirname(os.path.abspath(__file__))
 sys.path.insert(0, os.path.join(HERE, "spec"))
+sys.path.insert(0, os.path.join(HERE, "engine"))
 import manifest_spec as M
+import props
+
+
+def rules_of(pid):
+    out = []
+    for n in props.PROP_RULES[pid]:
+        out.append("CONTRACT" if n == "K" else (n[2:].rstrip("*") + ("(crate-wide)" if n.endswith("*") else "") if n.startswith("D:") else n))
+    return ", ".join(out)
 
 checks = []
 for pid in sorted(M.CLAIMED):
@@ -15,7 +24,7 @@ for pid in sorted(M.CLAIMED):
         "evidence_file": "/verif/evidence/%s.json" % pid,
         "replay_cmd_template": "./check %s --replay {path}" % pid,
         "engine": "mir-facts+rules",
-        "level_claimed": {"category": "other", "text": c["text"], "design_ref": c["design_ref"]},
+        "level_claimed": {"category": "other", "text": c["text"] + " — rules evaluated by this check (DESIGN §4): " + rules_of(pid), "design_ref": c["design_ref"]},
         "level_note": c["note"],
         "technique": c["technique"],
     })
